@@ -516,7 +516,13 @@ def oracle_fields(ctx, d):
                 # --- normalize => equal integrals (Images only; after a foreign-resolution call on the same object)
                 if dim in (2, 3):
                     img = make_data(rng, dim, res["n"], trailing, True, layout=LAYOUTS[(rep + nnorm) % 4])
-                    img["values"] = [abs(v) + 0.25 for v in img["values"]]
+                    # signed data: the integrals may be negative (per time step / component), only zero is excluded (the code divides)
+                    for _try in range(20):
+                        if all(x != 0 for x in integral_exact(g, img)):
+                            break
+                        img = make_data(rng, dim, res["n"], trailing, True, layout=img["layout"])
+                    else:
+                        img["values"] = [abs(v) + 0.25 for v in img["values"]]
                     refd = make_data(rng, dim, res["n"], trailing, True, layout=rng.choice(LAYOUTS))
                     refd["values"] = [abs(v) + 0.5 for v in refd["values"]]
                     obj = build_geo(d, g)
